@@ -44,10 +44,12 @@ type clScenario struct {
 	MaxOps    int      `json:"max_ops,omitempty"` // per client (0 = unbounded within LoadMs)
 	SnapCount int      `json:"snapcount"`         // VERIF_SNAPCOUNT for the nodes (0 = default 10000)
 	Classes   []string `json:"classes"`           // str ctr list set ledger
-	Faults    []string `json:"faults"`            // kill-follower kill-leader kill-all kill-minority lag-follower add-member del-member
+	Faults    []string `json:"faults"`            // kill-follower kill-leader kill-all kill-minority lag-follower add-member del-member; with proxied links: isolate-leader isolate-follower split partition-leader-minority isolate-follower-snap
 	Demo      string   `json:"demo,omitempty"`    // ttl | spop | xadd | listsnap | snaprestart | snaplag : minimal separate scenarios
 	OpTimeout int      `json:"op_timeout_ms,omitempty"`
 	ThinkMs   int      `json:"think_ms,omitempty"` // each client pauses 0..ThinkMs between commands
+	Proxied   bool     `json:"proxied,omitempty"`  // every raft link goes through a forwarder of the harness (cluster_links.go): partitions between live nodes
+	Readers   int      `json:"readers,omitempty"`  // read-only clients PINNED to each node (they keep asking a node that is cut off)
 }
 
 type clOp struct {
@@ -86,6 +88,8 @@ type clReport struct {
 	Ledger     map[string]string            `json:"ledger,omitempty"`
 	History    []clOp                       `json:"history,omitempty"`
 	LogTail    map[string]string            `json:"log_tail,omitempty"`
+	Excerpt    []string                     `json:"excerpt,omitempty"` // first not-linearizable key: the first reply without an explanation and its context
+	Links      map[string]int               `json:"links,omitempty"`   // proxied scenarios: forwarders, connections piped / closed by a cut / closed on arrival
 	Seconds    float64                      `json:"seconds"`
 	DemoDetail string                       `json:"demo_detail,omitempty"`
 }
@@ -111,6 +115,7 @@ type cluster struct {
 	snap    int
 	nodes   []*clNode
 	peers   []string
+	links   map[[2]int]*clLink // directed forwarders (from id, to id); nil = the nodes dial each other directly
 	pidFile *os.File
 	pidMu   sync.Mutex
 	diedMu  sync.Mutex
@@ -158,7 +163,7 @@ func (c *cluster) writeConfigs(n *clNode, join bool) error {
 		return err
 	}
 	cj, _ := json.Marshal(map[string]interface{}{
-		"IsCluster": true, "PeerAddrs": strings.Join(c.peers, ","), "RaftAddr": "", "NodeID": n.id, "KVPort": n.kvPort, "JoinCluster": join,
+		"IsCluster": true, "PeerAddrs": strings.Join(c.peersFor(n), ","), "RaftAddr": "", "NodeID": n.id, "KVPort": n.kvPort, "JoinCluster": join,
 	})
 	return os.WriteFile(filepath.Join(n.dir, "cluster.json"), cj, 0o644)
 }
@@ -286,6 +291,9 @@ func tailFile(path string, lines, maxBytes int) string {
 	}
 	return s
 }
+
+// fault kinds that cut links between live nodes (scenario field "proxied" required)
+var clPartitionFault = map[string]bool{"isolate-leader": true, "isolate-follower": true, "split": true, "partition-leader-minority": true, "isolate-follower-snap": true}
 
 var reLeader = regexp.MustCompile(`became leader at term (\d+)`)
 
@@ -703,6 +711,7 @@ func runClusterScenario(bin, scratch string, seed int64, sc clScenario) (rep clR
 	c := &cluster{bin: bin, dir: dir, snap: sc.SnapCount, pidFile: pidFile, t0: time.Now()}
 	defer func() {
 		c.killAll()
+		c.closeLinks()
 		pidFile.Close()
 		if os.Getenv("VERIF_KEEP_CLUSTER") == "" {
 			os.RemoveAll(dir)
@@ -725,6 +734,22 @@ func runClusterScenario(bin, scratch string, seed int64, sc clScenario) (rep clR
 	rng := rand.New(rand.NewSource(seed))
 	for i := 0; i < sc.Nodes; i++ {
 		if _, err := c.addNode(false); err != nil {
+			problem("start-failed", err.Error())
+			return
+		}
+	}
+	for _, f := range sc.Faults {
+		if clPartitionFault[f] && !sc.Proxied {
+			problem("start-failed", "bad scenario: fault "+f+" needs proxied links")
+			return
+		}
+		if f == "add-member" && sc.Proxied {
+			problem("start-failed", "bad scenario: add-member with proxied links (an added member's URL is one string for every node)")
+			return
+		}
+	}
+	if sc.Proxied {
+		if err := c.setupLinks(); err != nil {
 			problem("start-failed", err.Error())
 			return
 		}
@@ -767,6 +792,7 @@ func runClusterScenario(bin, scratch string, seed int64, sc clScenario) (rep clR
 	var histMu sync.Mutex
 	var hist []clOp
 	var stop atomic.Bool
+	var ackedWrites atomic.Int64 // writes acknowledged to the clients so far (a node cut off from the majority cannot acknowledge any)
 	var wg sync.WaitGroup
 	record := func(o clOp) {
 		histMu.Lock()
@@ -790,6 +816,12 @@ func runClusterScenario(bin, scratch string, seed int64, sc clScenario) (rep clR
 			crng := rand.New(rand.NewSource(seed*7919 + int64(g)))
 			var rc *respConn
 			var node *clNode
+			// proxied scenarios: a client whose command got no reply from a node turns to the OTHER nodes for a while, as a real
+			// client would (the pinned readers keep asking every node).  Every command without a reply is an operation with
+			// unknown outcome that stays concurrent with everything after it: this bounds their number on a cut-off node to
+			// one per client and visit, which keeps the linearizability search within its time limit.
+			var avoid *clNode
+			var avoidUntil time.Time
 			defer func() {
 				if rc != nil {
 					rc.c.Close()
@@ -800,6 +832,15 @@ func runClusterScenario(bin, scratch string, seed int64, sc clScenario) (rep clR
 					nodesMu.RLock()
 					ts := targets()
 					nodesMu.RUnlock()
+					if avoid != nil && time.Now().Before(avoidUntil) && len(ts) > 1 {
+						var others []*clNode
+						for _, t := range ts {
+							if t != avoid {
+								others = append(others, t)
+							}
+						}
+						ts = others
+					}
 					node = ts[crng.Intn(len(ts))]
 					var err error
 					rc, err = dialNode(node, 500*time.Millisecond)
@@ -821,9 +862,16 @@ func runClusterScenario(bin, scratch string, seed int64, sc clScenario) (rep clR
 					record(clOp{Client: g, Node: node.id, Cmd: argv, Key: key, Out: "?", Call: call, Ret: math.MaxInt64 / 2})
 					rc.c.Close()
 					rc = nil
+					if sc.Proxied {
+						avoid, avoidUntil = node, time.Now().Add(4*time.Second)
+						time.Sleep(time.Duration(300+crng.Intn(500)) * time.Millisecond) // and it backs off before it tries again
+					}
 					continue
 				}
 				record(clOp{Client: g, Node: node.id, Cmd: argv, Key: key, Out: out, Call: call, Ret: ret})
+				if !isReadOp(strings.ToLower(argv[0])) {
+					ackedWrites.Add(1)
+				}
 				if crng.Intn(16) == 0 {
 					// nothing may arrive while no command is outstanding (exactly one reply per command)
 					if x := rc.extra(20 * time.Millisecond); x != "" {
@@ -841,6 +889,73 @@ func runClusterScenario(bin, scratch string, seed int64, sc clScenario) (rep clR
 				}
 			}
 		}(g)
+	}
+
+	// read-only clients pinned to one node each: they keep asking their node whatever happens to its links.  A read that returns a
+	// value is an acknowledged operation like any other (it must linearize, also when the node is cut off from the majority); a read
+	// that times out constrains nothing and is dropped by the checker.
+	if sc.Readers > 0 {
+		readKeys := make([]string, 0, len(keys))
+		for k := range keys {
+			readKeys = append(readKeys, k)
+		}
+		sort.Strings(readKeys)
+		readTimeout := opTimeout
+		if readTimeout > 800*time.Millisecond {
+			readTimeout = 800 * time.Millisecond
+		}
+		for ni := 0; ni < sc.Nodes; ni++ {
+			for r := 0; r < sc.Readers; r++ {
+				wg.Add(1)
+				go func(g int, node *clNode) {
+					defer wg.Done()
+					crng := rand.New(rand.NewSource(seed*104729 + int64(g)))
+					var rc *respConn
+					defer func() {
+						if rc != nil {
+							rc.c.Close()
+						}
+					}()
+					for i := 0; !stop.Load() && i < 3000; i++ {
+						if rc == nil {
+							var err error
+							if rc, err = dialNode(node, 500*time.Millisecond); err != nil {
+								rc = nil
+								time.Sleep(100 * time.Millisecond)
+								continue
+							}
+						}
+						k := readKeys[crng.Intn(len(readKeys))]
+						var argv []string
+						switch keys[k] {
+						case "l":
+							argv = []string{"LLEN", k}
+						case "t":
+							argv = []string{"SCARD", k}
+						default:
+							argv = []string{"GET", k}
+							if crng.Intn(5) == 0 {
+								argv = []string{"STRLEN", k}
+							}
+						}
+						call := c.now()
+						out, err, malformed := rc.do(argv, readTimeout)
+						ret := c.now()
+						if malformed {
+							problem("bad-reply", fmt.Sprintf("reader %d node %d %v: reply is not one well-formed RESP value: %q (%v)", g, node.id, argv, out, err))
+						}
+						if err != nil {
+							record(clOp{Client: g, Node: node.id, Cmd: argv, Key: k, Out: "?", Call: call, Ret: math.MaxInt64 / 2})
+							rc.c.Close()
+							rc = nil
+							continue
+						}
+						record(clOp{Client: g, Node: node.id, Cmd: argv, Key: k, Out: out, Call: call, Ret: ret})
+						time.Sleep(time.Duration(2000+crng.Intn(sc.ThinkMs*1000+1)) * time.Microsecond)
+					}
+				}(sc.Clients+ni*sc.Readers+r, c.nodes[ni])
+			}
+		}
 	}
 
 	// fault controller
@@ -870,9 +985,132 @@ func runClusterScenario(bin, scratch string, seed int64, sc clScenario) (rep clR
 			}
 		}
 	}
+	aliveMembers := func() []*clNode {
+		var ms []*clNode
+		for _, n := range c.nodes {
+			if n.member && n.isAlive() {
+				ms = append(ms, n)
+			}
+		}
+		return ms
+	}
+	// after a heal: rafthttp redials within its retry interval (100 ms); a node that campaigned alone comes back with a higher term
+	// and forces one more election (raftexample configures neither PreVote nor CheckQuorum).  None of that is a problem; the next
+	// fault waits until every node answers through the log again (what remains unavailable is judged at quiescence).
+	healAndSettle := func() {
+		c.healAll()
+		t := time.Now()
+		if err := c.waitServing(aliveMembers(), 15*time.Second); err != nil {
+			note("heal: all links restored; 15 s later: %v (left to the quiescence check)", err)
+		} else {
+			note("heal: all links restored; every node serves again %.1fs later", time.Since(t).Seconds())
+		}
+	}
+	// the side that keeps a majority elects a new leader after its election timeout (10-20 ticks of 200 ms)
+	awaitNewLeader := func(old *clNode, limit time.Duration) *clNode {
+		t := time.Now()
+		for time.Since(t) < limit {
+			if x := c.leader(); x != nil && x != old {
+				note("node %d leads the majority side %.1fs after the cut; node %d is still cut off and was never told", x.id, time.Since(t).Seconds(), old.id)
+				return x
+			}
+			time.Sleep(100 * time.Millisecond)
+		}
+		note("no other node became leader within %.0fs of the cut", limit.Seconds())
+		return nil
+	}
+	// keep the cut until the majority side has acknowledged writes under its new leader (commands sent to a follower before it gave up
+	// on the old leader were forwarded into the cut and are lost; the clients come back after their deadline), at most 4 s
+	awaitMajorityWrites := func() {
+		base, t := ackedWrites.Load(), time.Now()
+		for time.Since(t) < 4*time.Second && ackedWrites.Load() < base+30 {
+			time.Sleep(50 * time.Millisecond)
+		}
+		note("the majority side acknowledged %d writes in the %.1fs since; the cut stays for another moment", ackedWrites.Load()-base, time.Since(t).Seconds())
+	}
 	for _, f := range sc.Faults {
 		sleepR(300, 1200)
 		switch f {
+		case "isolate-leader":
+			// the leader is cut off from everybody while it runs and serves its clients.  The others elect a new leader and acknowledge
+			// writes; the old one is not told (no CheckQuorum) - whatever it still answers during that time must linearize
+			l := c.leader()
+			if l == nil {
+				l = c.nodes[rng.Intn(sc.Nodes)]
+			}
+			k := c.isolate(l)
+			note("isolate leader %d: its links to all other nodes cut (%d open connections closed); the process runs and serves clients", l.id, k)
+			if awaitNewLeader(l, 7*time.Second) == nil {
+				// the guess from the log lines was wrong (the node cut off was not leading): once more with a fresh guess
+				healAndSettle()
+				if l = c.leader(); l == nil {
+					break
+				}
+				k = c.isolate(l)
+				note("isolate leader %d (second attempt): its links to all other nodes cut (%d open connections closed)", l.id, k)
+				awaitNewLeader(l, 7*time.Second)
+			}
+			awaitMajorityWrites()
+			sleepR(600, 1400)
+			healAndSettle()
+		case "partition-leader-minority":
+			// the leader and (nodes-1)/2 - 1 followers on one side (a minority that still exchanges heartbeats), the rest on the other
+			l := c.leader()
+			if l == nil {
+				l = c.nodes[rng.Intn(sc.Nodes)]
+			}
+			group := []*clNode{l}
+			fs := followers()
+			rng.Shuffle(len(fs), func(i, j int) { fs[i], fs[j] = fs[j], fs[i] })
+			for _, n := range fs {
+				if len(group) < (sc.Nodes-1)/2 {
+					group = append(group, n)
+				}
+			}
+			var ids []string
+			for _, n := range group {
+				ids = append(ids, strconv.Itoa(n.id))
+			}
+			k := c.partition(group)
+			note("partition: nodes %s (with leader %d) cut from the rest (%d open connections closed)", strings.Join(ids, ","), l.id, k)
+			awaitNewLeader(l, 7*time.Second)
+			awaitMajorityWrites()
+			sleepR(600, 1400)
+			healAndSettle()
+		case "isolate-follower":
+			if fs := followers(); len(fs) > 0 {
+				n := fs[rng.Intn(len(fs))]
+				k := c.isolate(n)
+				note("isolate follower %d: its links to all other nodes cut (%d open connections closed)", n.id, k)
+				sleepR(2000, 4000)
+				healAndSettle()
+			}
+		case "split":
+			// one follower <-> leader link only: the follower still reaches the others, times out, campaigns with a higher term
+			l := c.leader()
+			if fs := followers(); l != nil && len(fs) > 0 {
+				n := fs[rng.Intn(len(fs))]
+				k := c.cut(l.id, n.id)
+				note("split: link leader %d <-> follower %d cut (%d open connections closed)", l.id, n.id, k)
+				sleepR(2500, 4500)
+				healAndSettle()
+			}
+		case "isolate-follower-snap":
+			// a live follower is cut off while the others cross the snapshot threshold and compact: after the heal it is behind the
+			// leader's first log index and must be caught up by MsgSnap (sent through the leader's forwarder)
+			if fs := followers(); len(fs) > 0 {
+				n := fs[rng.Intn(len(fs))]
+				k := c.isolate(n)
+				note("isolate follower %d across a snapshot (%d open connections closed)", n.id, k)
+				before, loads := c.countLog("compacted log at index"), c.countLog("publishing snapshot at index")
+				sleepR(1500, 3000)
+				for w := 0; w < 100 && sc.SnapCount > 0 && c.countLog("compacted log at index") < before+4; w++ {
+					time.Sleep(100 * time.Millisecond)
+				}
+				note("the other nodes compacted %d times meanwhile", c.countLog("compacted log at index")-before)
+				healAndSettle()
+				note("snapshots published by receivers since the cut: %d", c.countLog("publishing snapshot at index")-loads)
+			}
 		case "kill-follower":
 			if fs := followers(); len(fs) > 0 {
 				n := fs[rng.Intn(len(fs))]
@@ -1007,8 +1245,13 @@ func runClusterScenario(bin, scratch string, seed int64, sc clScenario) (rep clR
 	if d := time.Until(loadEnd); d > 0 {
 		time.Sleep(d)
 	}
+	c.healAll()
 	stop.Store(true)
 	wg.Wait()
+	if c.links != nil {
+		piped, refused, severed := c.linkStats()
+		rep.Links = map[string]int{"forwarders": len(c.links), "connections_piped": piped, "closed_by_cut": severed, "closed_on_arrival_while_cut": refused}
+	}
 
 	// quiescence: every member runs, every member serves, then every key is read through every member
 	var live []*clNode
@@ -1195,6 +1438,7 @@ func runClusterScenario(bin, scratch string, seed int64, sc clScenario) (rep clR
 					}
 				}
 				sort.Slice(rep.History, func(i, j int) bool { return rep.History[i].Call < rep.History[j].Call })
+				rep.Excerpt = append([]string{"key " + k + ":"}, clExplain(rep.History)...)
 				if len(rep.History) > 400 {
 					rep.History = rep.History[len(rep.History)-400:]
 				}
@@ -1212,6 +1456,11 @@ func runClusterScenario(bin, scratch string, seed int64, sc clScenario) (rep clR
 		if same && len(rep.Final[k]) == len(live) {
 			rep.AgreeKeys++
 		}
+	}
+	if os.Getenv("VERIF_CLUSTER_HISTORY") != "" && len(rep.History) == 0 {
+		// debugging aid: the whole history of a scenario without a linearizability problem
+		rep.History = append([]clOp(nil), hist...)
+		sort.Slice(rep.History, func(i, j int) bool { return rep.History[i].Call < rep.History[j].Call })
 	}
 	if len(rep.Problems) > 0 {
 		logTails()
